@@ -164,6 +164,27 @@ func c03LargeUniqueTemplates() []c03Tmpl {
 	}
 }
 
+// c03KeyShapeTemplates: keys whose marshalled identities (Key.MarshalAppend: ts, metric, #tags, tags, #stags,
+// zero-terminated string tags) have different lengths and leave different bytes at every offset of a reused scratch:
+// two keys with an unmapped string tag (25 and 45 bytes), short keys without string tags (18 and 30 bytes, the longer
+// one with no zero byte in its tags), a key with all 47 ordinary tags set to -1 (198 bytes, 188 of them 0xff) and a key with a long
+// string tag (68 bytes). Values are small integers so that merges are exact.
+func c03KeyShapeTemplates() []c03Tmpl {
+	all := map[int]int32{}
+	for i := 0; i < format.StringTopTagIndexV3; i++ { // the last tag is the string-top tag: never set in a row key
+		all[i] = -1
+	}
+	return []c03Tmpl{
+		{name: "S1(skey3=str):val5x2", metric: 1001, tags: map[int]int32{1: 10}, skeys: map[int]string{3: "str"}, tail: c03Val{counter: 2, valueSet: true, min: 5}},
+		{name: "S2(skey5=tokyo-osaka-kyoto):cnt3", metric: 1001, tags: map[int]int32{1: 10}, skeys: map[int]string{5: "tokyo-osaka-kyoto"}, tail: c03Val{counter: 3}},
+		{name: "N1:cnt1", metric: 1001, tags: map[int]int32{1: 10}, tail: c03Val{counter: 1}},
+		{name: "N2(5 tags):val[-2..5]x3", metric: 1001, tags: map[int]int32{1: 0x01020304, 2: 0x05060708, 3: 0x090a0b0c, 4: 0x55555555},
+			tail: c03Val{counter: 3, valueSet: true, min: -2, hasMax: true, max: 5, sum: 8, sumsq: 54}},
+		{name: "P(47 tags -1):cnt1", metric: 1001, tags: all, tail: c03Val{counter: 1}},
+		{name: "Q(skey2=z*40):val7x1", metric: 1001, tags: map[int]int32{1: 10}, skeys: map[int]string{2: strings.Repeat("z", 40)}, tail: c03Val{counter: 1, valueSet: true, min: 7}},
+	}
+}
+
 var c03Agents = []c03Host{{i: 101}, {s: "hostB"}}
 
 func c03SetHost(set func(int32, *uint32), setS func([]byte, *uint32), h c03Host, fm *uint32) {
@@ -608,11 +629,15 @@ func c03NewAggregator() *Aggregator {
 
 // c03Ingest is the per-item core of Aggregator.handleSendSourceBucket (aggregator_handlers.go, loop over
 // bucket.Metrics): key, string tags kept unmapped, hash -> shard, lock, GetOrCreateMultiItem, MergeWithTLMultiItem.
-func c03Ingest(aggBucket *aggregatorBucket, rng *rand.Rand, item *tlstatshouse.MultiItemBytes, hostTag data_model.TagUnion) int32 {
+// keyBytes is the handler's key scratch buffer: the handler declares it once per request (`var stackBuf [1024]byte;
+// keyBytes := stackBuf[:0]`) and hands the SAME buffer to Key.XXHash for every row of the request, so from the second
+// row on it holds the bytes of the rows before. The caller owns it (one per request) for that reason.
+// selfMarshal: the row is aggregated by ONE MultiItemMap that marshals the key itself into its own reused keysBuffer
+// (GetOrCreateMultiItem with keyBytes == nil, the entry point the estimator and the agent shards use; after a
+// successful lookup the tail of that buffer is given back but keeps the bytes of the looked-up key).
+func c03Ingest(aggBucket *aggregatorBucket, rng *rand.Rand, item *tlstatshouse.MultiItemBytes, hostTag data_model.TagUnion, keyBytes *[]byte, selfMarshal bool) int32 {
 	lockedShard := -1
 	locks := 0
-	var stack [1024]byte
-	keyBytes := stack[:0]
 	k, _ := data_model.KeyFromStatshouseMultiItem(item, aggBucket.time)
 	for i, str := range item.Skeys {
 		if i >= format.MaxTags {
@@ -620,14 +645,46 @@ func c03Ingest(aggBucket *aggregatorBucket, rng *rand.Rand, item *tlstatshouse.M
 		}
 		k.STags[i] = string(str)
 	}
-	var hash uint64
-	keyBytes, hash = k.XXHash(keyBytes)
-	sID := int(hash % data_model.AggregationShardsPerSecond)
-	s := aggBucket.lockShard(&lockedShard, sID, &locks)
-	mi, _ := s.GetOrCreateMultiItem(&k, nil, keyBytes)
+	var mi *data_model.MultiItem
+	if selfMarshal {
+		s := aggBucket.lockShard(&lockedShard, 0, &locks)
+		mi, _ = s.GetOrCreateMultiItem(&k, nil, nil)
+	} else {
+		var hash uint64
+		*keyBytes, hash = k.XXHash(*keyBytes)
+		sID := int(hash % data_model.AggregationShardsPerSecond)
+		s := aggBucket.lockShard(&lockedShard, sID, &locks)
+		mi, _ = s.GetOrCreateMultiItem(&k, nil, *keyBytes)
+	}
 	is := mi.MergeWithTLMultiItem(rng, data_model.AggregatorStringTopCapacity, item, hostTag)
 	aggBucket.lockShard(&lockedShard, -1, &locks)
 	return is
+}
+
+// c03NewRequestScratch is the key scratch of a new request as the handler declares it (1024 zero bytes, length 0).
+func c03NewRequestScratch() []byte {
+	return make([]byte, 0, 1024)
+}
+
+// c03PrecedingRow leaves in the scratch what a row of ANOTHER series, handled just before in the same request, leaves
+// there: the real Key.XXHash marshals a key of the same metric whose 47 ordinary tags are all 0x01010101*p (198 bytes,
+// every byte from offset 9 to 196 equals p). That row itself is not aggregated (a row of another series does not take part
+// in the rows judged here); only its trace in the scratch matters. p == 0: no preceding row (untouched zeroed scratch).
+func c03PrecedingRow(keyBytes *[]byte, p int) {
+	if p == 0 {
+		return
+	}
+	pk := data_model.Key{Timestamp: c03Time, Metric: 1001}
+	for i := 0; i < format.StringTopTagIndexV3; i++ {
+		pk.Tags[i] = int32(uint32(0x01010101) * uint32(p&0xff))
+	}
+	*keyBytes, _ = pk.XXHash(*keyBytes)
+}
+
+// c03Plan: how the contributions of a sequence are grouped into requests (part insert-body-key-scratch).
+type c03Plan struct {
+	newReq      []bool // newReq[i]: contribution i is the first row of a new request (another agent); newReq[0] is true
+	selfMarshal bool   // all rows are aggregated by one self-marshalling MultiItemMap (see c03Ingest)
 }
 
 type c03Mem struct { // what the aggregator holds for one row before encoding
@@ -752,13 +809,28 @@ func (d *c03Dec) drained() bool {
 	return left == 0
 }
 
-// c03RunCase pushes one contribution sequence through the seam and judges the body.
+// c03RunCase pushes one contribution sequence through the seam and judges the body. Every contribution is a request
+// of its own; contribution number i (0-based) is preceded in its request by a row of another series that leaves byte
+// value i at offsets 9..196 of the handler's key scratch (c03PrecedingRow; the first contribution finds the untouched
+// zeroed scratch), so the same key is marshalled over different stale bytes every time it is contributed.
 func c03RunCase(x *mc.Exec, dec *c03Dec, tmpls []c03Tmpl, items [][]byte, seq [][2]int, f float64, stat *c03Stats) mc.Verdict {
+	return c03RunCasePlan(x, dec, tmpls, items, seq, f, stat, nil)
+}
+
+// c03RunCasePlan: plan != nil groups the contributions into requests whose rows share one key scratch (real carry-over
+// of the bytes of the rows before, nothing else is put into the scratch).
+func c03RunCasePlan(x *mc.Exec, dec *c03Dec, tmpls []c03Tmpl, items [][]byte, seq [][2]int, f float64, stat *c03Stats, plan *c03Plan) mc.Verdict {
 	names := make([]string, len(seq))
 	for i, c := range seq {
 		names[i] = c03Agents[c[0]].String() + ">" + tmpls[c[1]].name
+		if plan != nil && !plan.selfMarshal && !plan.newReq[i] {
+			names[i] = "(same request) " + tmpls[c[1]].name
+		}
 	}
 	caseName := strings.Join(names, " ; ")
+	if plan != nil && plan.selfMarshal {
+		caseName += " (one self-marshalling MultiItemMap)"
+	}
 	bad := func(sig, msg string) mc.Verdict {
 		return mc.Verdict{Sig: "C03:" + sig, Violation: msg + " [contributions: " + caseName + "]", Detail: map[string]any{"contributions": names, "skew_draw": f}}
 	}
@@ -766,7 +838,8 @@ func c03RunCase(x *mc.Exec, dec *c03Dec, tmpls []c03Tmpl, items [][]byte, seq []
 	aggBucket := newAggregatorBucket(c03Time)
 	mergeRng := rand.New(1)
 	mergeRng.Hook = &mc.ChoiceRand{X: x, Free: true, MaxN: stat.rngCap}
-	for _, c := range seq {
+	var keyBytes []byte
+	for ci, c := range seq {
 		// a fresh copy of the received bytes: the handler's merge mutates the TL item
 		var b tlstatshouse.SourceBucket3Bytes
 		if _, err := b.ReadTL1Boxed(items[c[1]]); err != nil {
@@ -774,7 +847,17 @@ func c03RunCase(x *mc.Exec, dec *c03Dec, tmpls []c03Tmpl, items [][]byte, seq []
 			return mc.Verdict{}
 		}
 		agent := c03Agents[c[0]]
-		if is := c03Ingest(aggBucket, mergeRng, &b.Metrics[0], data_model.TagUnion{I: agent.i, S: agent.s}); is != 0 {
+		selfMarshal := false
+		if plan == nil {
+			keyBytes = c03NewRequestScratch()
+			c03PrecedingRow(&keyBytes, ci)
+		} else {
+			selfMarshal = plan.selfMarshal
+			if plan.newReq[ci] {
+				keyBytes = c03NewRequestScratch()
+			}
+		}
+		if is := c03Ingest(aggBucket, mergeRng, &b.Metrics[0], data_model.TagUnion{I: agent.i, S: agent.s}, &keyBytes, selfMarshal); is != 0 {
 			return bad("merge-rejected-valid-item", fmt.Sprintf("MergeWithTLMultiItem returned ingestion status %d for a valid item", is))
 		}
 	}
@@ -1026,7 +1109,7 @@ func (s *c03Stats) outcome(r *c03Row, e *c03RefRow) {
 
 func TestVerifC03(t *testing.T) {
 	rep := mc.NewReport("C03")
-	rep.Rule = "every sequence of 1..L contributions (agent in {int host, string host}) x (12 item templates over a colliding key pool: same key as counter / single value / min-max value with explicit hosts / unique / centroids / implicit centroid, key with one more tag, key with a string tag, key at another timestamp, string-top entries by string and by int) merged through the handler's per-key path with every rng outcome of the host choice, then encoded by rowDataMarshalAppendPositions (budget cannot bind), for skew draws f in {0.5, 0} (sequences of 4, thorough tier: over 8 core templates, f = 0.5 only); plus every sequence of 1..3 contributions of 5 unique-set templates on one key whose unions approach (65535 values), overlap or exceed the exact-mode limit (host-choice draws capped to 4 evenly spread outcomes there); plus, for every table size degree of the tier, unique sets whose hashes collide in the last slot / slot 0 of the sketch's hash table (wrap-around chains of length 1-3 in every insertion order) followed by every sequence of 1-3 further contributions that grow the set across one or two table resizes and repeat the wrapped values. Non-trivial = some row received at least two contributions"
+	rep.Rule = "every sequence of 1..L contributions (agent in {int host, string host}) x (12 item templates over a colliding key pool: same key as counter / single value / min-max value with explicit hosts / unique / centroids / implicit centroid, key with one more tag, key with a string tag, key at another timestamp, string-top entries by string and by int) merged through the handler's per-key path with every rng outcome of the host choice, then encoded by rowDataMarshalAppendPositions (budget cannot bind), for skew draws f in {0.5, 0} (sequences of 4, thorough tier: over 8 core templates, f = 0.5 only); plus every sequence of 1..3 contributions of 5 unique-set templates on one key whose unions approach (65535 values), overlap or exceed the exact-mode limit (host-choice draws capped to 4 evenly spread outcomes there); plus, for every table size degree of the tier, unique sets whose hashes collide in the last slot / slot 0 of the sketch's hash table (wrap-around chains of length 1-3 in every insertion order) followed by every sequence of 1-3 further contributions that grow the set across one or two table resizes and repeat the wrapped values; in all of these contribution number i is marshalled over the bytes a preceding row of another series (47 tags = 0x01010101*i) left in the request's key scratch; plus every sequence of 1..K rows over 6 key shapes of different marshalled length (with and without string tags) x every grouping of the rows into requests that share one key scratch, and the same sequences aggregated by one self-marshalling MultiItemMap. Non-trivial = some row received at least two contributions"
 	rep.Assume("seam: the per-item core of handleSendSourceBucket (key, hash->shard, lockShard, GetOrCreateMultiItem, MergeWithTLMultiItem) is replicated in the harness; the RPC handler around it (shard/replica checks, tag mapping, long poll) is not driven")
 	rep.Assume("metric meta is 'missing' for the user metric (no skip-host / skip-sumsquare flags); string tags stay unmapped")
 	rep.Assume("RowBinary layout of the aggregate states (quantilesTDigest, uniq, argMin/argMax(String,Float32)) is taken from ClickHouse's serialization as re-implemented by the harness parser")
@@ -1087,6 +1170,44 @@ func TestVerifC03(t *testing.T) {
 	rep.MergeExplore("insert-body-large-unique", st2)
 	stat2.nontrivial += stat2.nontrivialDup / 2
 	rep.AddCounts(0, 0, 0, stat2.nontrivial)
+	// key identity over a reused key scratch: rows grouped into requests (the handler's scratch is shared by the rows
+	// of a request) and rows aggregated by one self-marshalling MultiItemMap (its keysBuffer is reused)
+	shapes := c03KeyShapeTemplates()
+	shapeItems := make([][]byte, len(shapes))
+	for i := range shapes {
+		it, err := c03BuildItem(&shapes[i])
+		if err != nil {
+			t.Fatalf("template %s: %v", shapes[i].name, err)
+		}
+		b := tlstatshouse.SourceBucket3Bytes{Metrics: []tlstatshouse.MultiItemBytes{it}}
+		shapeItems[i] = b.WriteTL1Boxed(nil)
+	}
+	maxLK := mc.Pick(4, 5)
+	rep.Bounds["key_scratch_templates"] = len(shapes)
+	rep.Bounds["key_scratch_max_rows"] = maxLK
+	stat4 := &c03Stats{rep: rep}
+	body4 := func(x *mc.Exec) mc.Verdict {
+		L := 1 + x.ChooseFree(maxLK, "number of rows")
+		plan := &c03Plan{newReq: make([]bool, L), selfMarshal: x.ChooseFree(2, "aggregated by {handler path, self-marshalling map}") == 1}
+		seq := make([][2]int, L)
+		req := 0
+		for i := range seq {
+			switch {
+			case i == 0 || plan.selfMarshal: // one contribution per agent call
+				plan.newReq[i] = true
+				req = i
+			case x.ChooseFree(2, "row starts a new request") == 1:
+				plan.newReq[i] = true
+				req++
+			}
+			seq[i] = [2]int{req % len(c03Agents), x.ChooseFree(len(shapes), "row")}
+		}
+		return c03RunCasePlan(x, decs[x.Worker], shapes, shapeItems, seq, 0.5, stat4, plan)
+	}
+	st4 := mc.Explore(body4, mc.Options{Bound: -1, SplitDepth: 3, Shard: k, Shards: n})
+	rep.MergeExplore("insert-body-key-scratch", st4)
+	stat4.nontrivial += stat4.nontrivialDup / 2
+	rep.AddCounts(0, 0, 0, stat4.nontrivial)
 	// hashes chosen against the sketch's hash table (wrap-around chains across resizes), see verif_c03_adv_test.go
 	st3, stat3 := c03AdversarialPart(t, rep, decs)
 	body := func(x *mc.Exec) mc.Verdict {
@@ -1122,5 +1243,5 @@ func TestVerifC03(t *testing.T) {
 	if err := rep.Write(); err != nil {
 		t.Fatal(err)
 	}
-	t.Logf("C03: executions=%d+%d+%d (main, large-unique, adversarial-unique) rows judged=%d+%d+%d nontrivial=%d+%d+%d violations=%d", st.Executions, st2.Executions, st3.Executions, stat.rows, stat2.rows, stat3.rows, stat.nontrivial, stat2.nontrivial, stat3.nontrivial, rep.NumViolations())
+	t.Logf("C03: executions=%d+%d+%d+%d (main, large-unique, adversarial-unique, key-scratch) rows judged=%d+%d+%d+%d nontrivial=%d+%d+%d+%d violations=%d", st.Executions, st2.Executions, st3.Executions, st4.Executions, stat.rows, stat2.rows, stat3.rows, stat4.rows, stat.nontrivial, stat2.nontrivial, stat3.nontrivial, stat4.nontrivial, rep.NumViolations())
 }
